@@ -30,3 +30,19 @@ func VerifAppendString(html, norm bool, s string) []byte {
 	}
 	return AppendString(ctx, nil, s)
 }
+
+// VerifTypeAddr returns the result of the type address analysis used by the encoder cache
+// (all zero when the analysis gave up).
+func VerifTypeAddr() (base, max, rng, shift uintptr) {
+	initEncoder()
+	return typeAddr.BaseTypeAddr, typeAddr.MaxTypeAddr, typeAddr.AddrRange, typeAddr.AddrShift
+}
+
+// VerifCacheIndex evaluates the fast-path guard and index expression of CompileToGetCodeSet.
+func VerifCacheIndex(typeptr uintptr) (index int, fast bool, size int) {
+	initEncoder()
+	if typeptr > typeAddr.MaxTypeAddr || typeptr < typeAddr.BaseTypeAddr {
+		return 0, false, len(cachedOpcodeSets)
+	}
+	return int((typeptr - typeAddr.BaseTypeAddr) >> typeAddr.AddrShift), true, len(cachedOpcodeSets)
+}
